@@ -43,6 +43,10 @@ func ParseCertificates(certStrs []string) ([]*x509.Certificate, error) {
 }
 
 func ParseTlsKeyPair(cert []byte, key *rsa.PrivateKey) (tls.Certificate, error) {
+	if key == nil || key.N == nil || key.D == nil {
+		return tls.Certificate{}, fmt.Errorf("private key is empty")
+	}
+
 	certPem := pem.EncodeToMemory(
 		&pem.Block{
 			Type:  "CERTIFICATE",
